@@ -148,7 +148,7 @@ func runC11(c *fw.Ctx) {
 		}
 		c.Distinct(p.input())
 	})
-	c.Cases("programs", c.N(1500, 60000), false, func(i int, r *rng.R) {
+	c.Cases("programs", c.N(1500, 600000), false, func(i int, r *rng.R) {
 		p := &prog{c: c, r: r, h: &model.Heap{}}
 		guard(c, p.input, func() {
 			rootKind := spec.List
